@@ -165,8 +165,9 @@ def swapped : Res (Bool × Arg) → Res (Bool × Arg)
   | r => r
 
 /-- `neutralize_raw`: first the swap `-(l - r) ↦ r - l`, `0 - (l - r) ↦ r - l` (repair of K5: the negation of a difference
-is never kept, so that `evaluate` is idempotent), then the passes on the binary node -/
+is never kept, so that `evaluate` is idempotent; repair of K6: nor is a double negation), then the passes on the binary node -/
 def neutralizeRaw : Arg → Res (Bool × Arg)
+  | .neg (.neg v) => swapped (neutralizeRaw v)        -- the `while` loop: a double negation is its operand (repair of K6)
   | .neg (.bin .sub l r) => swapped (neutralizeBin .sub r l)
   | .bin .sub (.const c) (.bin .sub l r) =>
     if c = 0 then swapped (neutralizeBin .sub r l) else neutralizeBin .sub (.const c) (.bin .sub l r)
@@ -432,6 +433,12 @@ def simplifyRaw : Arg → Res (Bool × Arg)
     | .bin .sub l r =>
       -- `*arg = Subtract{lhs: rhs, rhs: lhs}; neutralize_raw(arg)?; true`
       match neutralizeRaw (.bin .sub r l) with
+      | .ok (_, a) => .ok (true, a)
+      | .err e => .err e
+      | .panic => .panic
+    | .neg w =>
+      -- `neutralize_raw(arg)?; true` (removes the double negation)
+      match neutralizeRaw (.neg (.neg w)) with
       | .ok (_, a) => .ok (true, a)
       | .err e => .err e
       | .panic => .panic
